@@ -108,7 +108,7 @@ pub fn run(args: &Args) -> i32 {
         "C12",
         tier,
         seed,
-        "exhaustive: every string of length <=7 over {LF,CR,a,e-acute,CJK,emoji} x every byte offset 0..=len (boundary and non-boundary); random: texts up to 4 KiB with clustered line breaks x random offsets. Non-trivial = offset is valid and the string contains a line break or a multi-byte character; distinct by (string, offset).",
+        "exhaustive: every string of length <=7 over {LF,CR,a,e-acute,CJK,emoji} and every string of length <=4 over {LF,CR,U+80,U+BF,U+7FF,U+800,U+FFFF,U+10FFFF} (encodings on the edges of the UTF-8 byte classes) x every byte offset 0..=len (boundary and non-boundary); random: texts up to 4 KiB with clustered line breaks x random offsets. Non-trivial = offset is valid and the string contains a line break or a multi-byte character; distinct by (string, offset).",
     );
     ev.assumptions.push("pest 2.7.14 Position::{new,line_col,line_of} is the reference".into());
     let max = match tier {
@@ -127,6 +127,21 @@ pub fn run(args: &Args) -> i32 {
         }
         true
     });
+    // second small scope: characters whose UTF-8 encodings sit on the edges of the byte classes
+    // (continuation bytes 0x80 / 0xBF, smallest and largest lead bytes)
+    if violation.is_none() {
+        let edge: [char; 8] = ['\n', '\r', '\u{80}', '\u{bf}', '\u{7ff}', '\u{800}', '\u{ffff}', '\u{10ffff}'];
+        for_all_strings(&edge, 4, |s| {
+            strings += 1;
+            for o in 0..=s.len() + 1 {
+                if let Some(v) = check_one(s, o, &mut ev) {
+                    violation = Some(v);
+                    return false;
+                }
+            }
+            true
+        });
+    }
     ev.extra.insert("exhaustive_strings".into(), json!(strings));
     ev.extra.insert("exhaustive_max_len".into(), json!(max));
     ev.exhaustive = Some(violation.is_none());
@@ -135,7 +150,7 @@ pub fn run(args: &Args) -> i32 {
     if violation.is_none() {
         let cases = tier.pick(3000u32, 60000u32);
         let mut r = runner(verif_core::common::sub_seed(seed, "C12"), cases);
-        let alphabet: [&str; 10] = ["a", "\n", "\r\n", "\r", "é", "中", "😀", "b ", "\n\n", "xyz"];
+        let alphabet: [&str; 18] = ["a", "\n", "\r\n", "\r", "é", "中", "😀", "b ", "\n\n", "xyz", "\u{bf}", "\u{ff}", "\u{feff}", "\u{fffd}", "\u{80}", "\u{7ff}", "\u{10ffff}", "\u{1f67f}"];
         let strat = (prop::collection::vec(any::<u8>(), 0..1500), any::<u16>());
         let evc = std::cell::RefCell::new(&mut ev);
         let res = r.run(&strat, |(tape, oi)| {
